@@ -226,6 +226,9 @@ class ContractMixin:
                     if qn.endswith(suffix) and isinstance(d.returns, Ty):
                         ty = d.returns
             return fresh(ty, "nocall")
+        if name == "log_raised":
+            suffix = z3.simplify(args[0].t).as_string()
+            return mk_int(len([1 for (q, env) in st.log if q.endswith(suffix) and "__raised__" in env]))
         if name in ("log_count", "log_arg"):
             # ghost call log of this path: calls made through contracts since the function was entered
             suffix = z3.simplify(args[0].t).as_string()
@@ -352,13 +355,14 @@ class ContractMixin:
         ci.old = st.snapshot()
         whens = [w for (_, w, _, _) in ci.raises if w is not None]
         for cname, when, lab, _ in ci.raises:
-            if when is None:
+            if when is None or feasible(st.pc, when):
                 s2 = st.clone()
-                yield s2, Raise(ExcVal(cname))
-                continue
-            if feasible(st.pc, when):
-                s2 = st.clone()
-                s2.assume(when)
+                if when is not None:
+                    s2.assume(when)
+                if log_entry is not None:
+                    e2 = dict(log_entry)
+                    e2["__raised__"] = cname
+                    s2.log[-1] = (decl.qualname, e2)
                 yield s2, Raise(ExcVal(cname))
         for w in whens:
             st.assume(z3.Not(w))
